@@ -239,7 +239,7 @@ func (e *Engine) frameCheck(fs *State, c *Contract, args []Val) {
 // Assumption (listed in every evidence file): such a callee does not write to objects the verified code reads later.
 func (e *Engine) unknownCall(s *State, name string, sig *types.Signature, recv Val, args []Val) Val {
 	rs := sig.Results()
-	if iv, ok := recv.(IfaceV); ok && sig.Params().Len() == 0 && rs.Len() == 1 {
+	if iv, ok := recv.(IfaceV); ok && sig.Params().Len() == 0 && rs.Len() == 1 && e.ifaceContract(name) == nil {
 		if so, ok := sortOf(rs.At(0).Type()); ok {
 			if _, isPtr := rs.At(0).Type().Underlying().(*types.Pointer); !isPtr {
 				uf := "ufm_" + sanitize(name)
